@@ -1,5 +1,8 @@
 import PsycheModel.StmtCtx
 import PsycheModel.Lemmas.GuessRole
+import PsycheModel.Lemmas.Stmt
+import PsycheModel.Lemmas.Expr
+import PsycheModel.ExprReal
 /-!
 # C04 — Every valid C11 translation unit is accepted by the parser (the fragments that are proved)
 
@@ -169,3 +172,44 @@ example : guess .unspecified false (toks (.fn .abstract (.cons "int" (.ident "a"
   decide
 
 end PsycheModel.DeclTokens
+
+/-! ## Statements: every derivable statement is accepted, and parsed to the tree the grammar gives it -/
+namespace PsycheModel.Stmt
+
+/-- **Acceptance and shape of statements.**  On the transcription of `parseStatement` / `parseCompoundStatement_AtFirst` and the ten
+`parse…Statement_AtFirst` functions (expressions and keyword-started declarations abstracted to one token each): every statement
+tree of any size and depth that is derivable as written (`ok`: the first sub-statement of an `if … else` does not end in an `if`
+without `else`, 6.8.4.1p3), printed and followed by ANY tokens - which must not begin with `else` if the statement ends in an `if`
+without `else` - is parsed back to exactly that tree, leaving exactly those tokens: labels, `case`/`default`, compound statements
+with any number of items, `if` with and without `else` (the `else` goes with the nearest `if`), `switch`, `while`, `do`, `for` with
+every combination of its three clauses, `goto`, `continue`, `break`, `return` with and without a value. -/
+theorem statement_parse_pp (s : S) (rest : List Tok) (hok : ok s = true) (hne : openEnd s = true → NoElse rest) :
+    ∃ fuel, stmt fuel (pp s ++ rest) = some (s, rest) := rt s rest hok hne
+
+/-- a compound statement is complete in itself: followed by anything -/
+theorem block_parse_pp (xs : List S) (rest : List Tok) (hok : okItems xs = true) :
+    ∃ fuel, stmt fuel (pp (.block xs) ++ rest) = some (.block xs, rest) :=
+  rt (.block xs) rest (by simpa [ok] using hok) (fun h => by simp [openEnd] at h)
+
+/-- more fuel never changes a result -/
+theorem stmt_fuel_irrelevant {f f' : Nat} {ts x} (h : stmt f ts = some x) (hf : f ≤ f') : stmt f' ts = some x :=
+  (le_of_le hf).stmt _ _ h
+
+/-- **the dangling `else`**: `if (a) if (b) s; else t;` is the tree whose INNER `if` has the `else` -/
+example : (match stmt 10 [.kif, .lp, .e 0, .rp, .kif, .lp, .e 1, .rp, .e 2, .semi, .kelse, .e 3, .semi] with
+    | some (s, []) => S.beq s (.ite 0 (.itel 1 (.expr 2) (.expr 3))) | _ => false) = true := by decide
+/-- … so the other tree is not derivable as written (it needs braces), and `ok` says so -/
+example : ok (.itel 0 (.ite 1 (.expr 2)) (.expr 3)) = false ∧ ok (.itel 0 (.block [.ite 1 (.expr 2)]) (.expr 3)) = true := by decide
+/-- non-vacuity: `L: for (d; e; ) { case e: if (e) do ; while (e); else return; default: break; }` -/
+example : ok (.label 7 (.for_ (.decl 0) (some 1) none (.block [.case 2 (.itel 3 (.do_ .empty 4) (.ret none)), .dflt .brk]))) = true := by decide
+
+end PsycheModel.Stmt
+
+/-! ## Expressions: every derivable expression is accepted (C06's all-layers theorem, read as acceptance) -/
+namespace PsycheModel.Expr
+/-- with the parser's own tables, every expression tree the C11 grammar derives is accepted by the model of `parseExpression` -/
+theorem valid_expression_accepted (e : E) (hok : ok realT e = true) : ∃ fuel, (nary realT fuel 1 (pp realT e)).isSome = true := by
+  obtain ⟨f, hf⟩ := (all realT realT_sane (pp realT e).length).N e 1 [] (Nat.le_refl _) hok (atLevel_one realT realT_sane e hok)
+    (Nat.le_refl _) (stopO_zero realT (Nat.le_refl _) rfl) (NA_nil realT realT_sane) trivial
+  exact ⟨f, by simpa using congrArg Option.isSome hf⟩
+end PsycheModel.Expr
